@@ -135,6 +135,16 @@ func c08RandomLayout(r *rand.Rand) map[string][]c08Entry {
 	}
 }
 
+func c08Panics(fn func()) (msg string) {
+	defer func() {
+		if p := recover(); p != nil {
+			msg = fmt.Sprint(p)
+		}
+	}()
+	fn()
+	return ""
+}
+
 func c08Build(ents []c08Entry) *index.Index {
 	idx := index.NewIndex()
 	var order []string
@@ -222,6 +232,21 @@ func TestVerif_C08(t *testing.T) {
 	recs := kit.NewNDJSON("recs.ndjson")
 	defer recs.Close()
 	ctx := context.Background()
+	// pre-flight: every entry value the layouts use (up to the 32-bit limits of the format) can be stored and
+	// encoded at all; a panic of the code under test is a verdict, not a harness failure
+	for _, ents := range c08FixedLayout() {
+		for _, e := range ents {
+			if msg := c08Panics(func() {
+				var buf bytes.Buffer
+				_ = c08Build([]c08Entry{e}).Encode(&buf)
+				_, _ = index.DecodeIndex(buf.Bytes(), restic.ID{})
+			}); msg != "" {
+				res.Violate("index/entry-within-32-bit-limits-panics", fmt.Sprintf("entry %v: %s", e, msg), map[string]any{"entry": e})
+				res.Save("")
+				return
+			}
+		}
+	}
 	base := TestRepository(t)
 	enc, dec := base.getZstdEncoder(), base.getZstdDecoder()
 	open := func(be *mem.MemoryBackend) *Repository {
